@@ -140,6 +140,7 @@ def run_scenario(sc, peer_factory=None, inv_factory=None, quiesce=True) -> Run:
         peer = ScriptedPeer(HOST, sc["framing"], [tuple(s) if isinstance(s, list) else s for s in sc.get("script", [])],
                             T, after=sc.get("after", "drop"))
     run.peer = peer
+    peer.default_hops = int(sc.get("hops", 0))
     vnow = 0.0
     seq = [0]
 
